@@ -252,6 +252,15 @@ func min(a, b int) int {
 
 func fromUniqueName(info *types.Info, fd *ast.FuncDecl, e ast.Expr) bool {
 	e = ast.Unparen(e)
+	// a sanitised name followed by a decimal counter is still an identifier
+	if be, ok := e.(*ast.BinaryExpr); ok && be.Op == token.ADD {
+		if call, ok := ast.Unparen(be.Y).(*ast.CallExpr); ok {
+			if fn, ok := typeutil.Callee(info, call).(*types.Func); ok && fn.FullName() == "strconv.Itoa" {
+				return fromUniqueName(info, fd, be.X)
+			}
+		}
+		return false
+	}
 	if call, ok := e.(*ast.CallExpr); ok {
 		if fn, ok := typeutil.Callee(info, call).(*types.Func); ok && fn.Name() == "uniqueName" {
 			return true
@@ -386,7 +395,8 @@ func CheckPure(run *core.Run, prog *load.Program, rule string) {
 		}
 		ms := types.NewMethodSet(types.NewPointer(tn.Type()))
 		for i := 0; i < ms.Len(); i++ {
-			if fn, ok := ms.At(i).Obj().(*types.Func); ok && prog.Decl(fn) != nil {
+			// text/template can only call exported methods
+			if fn, ok := ms.At(i).Obj().(*types.Func); ok && fn.Exported() && prog.Decl(fn) != nil {
 				roots[fn] = true
 			}
 		}
@@ -485,7 +495,7 @@ func CheckPure(run *core.Run, prog *load.Program, rule string) {
 		})
 		run.Check(rule, n, prog.Pos(decl.Pos()), len(bad) == 0, fmt.Sprintf("%s, which the template reaches, writes to %v: a rendering helper that stores state (a cache, a rename) makes the output depend on when it is first called — e.g. a type string frozen before a later interface forces an import to be re-aliased", n, bad))
 	}
-	run.Floor(rule, 10)
+	run.Floor(rule, 8)
 }
 
 // localFresh: v is a local variable initialised by make/composite literal/new in this function.
